@@ -31,6 +31,12 @@ static inline uint64_t spec_rook_walk(uint32_t sq, uint64_t occ)
 static inline uint64_t spec_bishop_walk(uint32_t sq, uint64_t occ)
 { return spec_walk_ray(0, sq, occ) | spec_walk_ray(2, sq, occ) | spec_walk_ray(4, sq, occ) | spec_walk_ray(6, sq, occ); }
 static inline uint64_t spec_queen_walk(uint32_t sq, uint64_t occ) { return spec_rook_walk(sq, occ) | spec_bishop_walk(sq, occ); }
+/* the same walks evaluated by case distinction on the origin square (each case has a constant origin): the same functions, in a
+ * form in which a walk from a symbolic square and walks from all 64 constant squares share their structure (lemma group geom/walk_cases) */
+static inline uint64_t spec_rook_walk_cases(uint32_t sq, uint64_t occ)
+{ uint64_t r = 0; for (uint32_t s = 0; s < 64; s++) if (sq == s) r = spec_rook_walk(s, occ); return r; }
+static inline uint64_t spec_bishop_walk_cases(uint32_t sq, uint64_t occ)
+{ uint64_t r = 0; for (uint32_t s = 0; s < 64; s++) if (sq == s) r = spec_bishop_walk(s, occ); return r; }
 
 /* the square (f + df, r + dr) as a one-bit set, empty when it is off the board */
 static inline uint64_t spec_leap(int f, int r, int df, int dr)
